@@ -37,6 +37,8 @@ func checkC04(r *core.Run) {
 	r.Rule("T-refund-booked: a refund paid from the market escrow for an order that stays alive lowers Order.Amount by the refunded coin and the order is persisted, in the same function")
 	r.Rule("T-loopvar: in the storage handlers no address of a variable re-assigned per loop iteration is stored into a slice/field inside its loop (the orders collected for the shard hand-over must be distinct records: an aliased list rewrites one order twice and leaves the others pointing at a removed shard, which is never refunded or released)")
 	ruleLoopVarAddr(r, "T-loopvar", "sao/keeper.msgServer.")
+	r.Rule("T-fresh-if-missing: in the market keeper a freshly built Worker / Pool record replaces the stored one only when none was found (the stored worker holds the provider's unclaimed income)")
+	ruleFreshOnlyIfMissing(r, "T-fresh-if-missing", "market/keeper.")
 	r.Assume(aDeps)
 	r.Assume(aCG)
 	ruleFlows(r, "C04")
